@@ -8,7 +8,7 @@
 (* and validation continues, so one run reports every rejection.           *)
 (* The orchestrator (bin/check) attributes failed conjuncts to properties. *)
 (***************************************************************************)
-EXTENDS Arith, Order, Text, Conv, BigIntM, ErrDec, Roots, Transc, Json
+EXTENDS Arith, AlgRound, Order, Text, Conv, BigIntM, ErrDec, Roots, Transc, Json
 T == ndJsonDeserialize("trace.ndjson")
 VARIABLE l
 
@@ -325,8 +325,16 @@ Verdict(ev) ==
     [] ev.k = "om" -> Verdict_om(ev)
     [] OTHER -> {"unknown-family"}
 
+\* layer-2 drift (reported in the evidence, never a violation): the recorded Round call differs from the
+\* implementation-shaped model AlgRound in representation or in ANY condition bit (Rounded / Clamped included)
+DriftRound(ev) ==
+  ev.k = "a" /\ ev.op = "round" /\ ev.panic = "" /\ ~SysFlag(ev) /\ ev.x.f \in {FIN, INF} /\ WFContext(ev.ctx) /\
+  LET a == AlgRound(ev.ctx, ev.x) IN
+  ~(a.f = ev.res.f /\ (a.f = FIN => (a.c = ev.res.c /\ a.e = ev.res.e)) /\ BitSet(ev.fl) = a.fl)
+
 Init == l = 0
 Next == l < Len(T) /\ l' = l + 1
-Inv == l = 0 \/ LET v == Verdict(T[l]) IN (v = {} \/ PrintT(<<"VIOL", l, v>>))
+Inv == l = 0 \/ (/\ (DriftRound(T[l]) => PrintT(<<"DRIFT", l>>))
+                  /\ LET v == Verdict(T[l]) IN (v = {} \/ PrintT(<<"VIOL", l, v>>)))
 Done == PrintT(<<"VALIDATED", Len(T)>>)
 =============================================================================
